@@ -6,7 +6,8 @@
 set -u
 DL=${1:-25}; shift 2>/dev/null
 IDS=${@:-C01 C02 C03 C04 C05 C06 C07 C08 C09 C10 C11 C12 C13 C14 C15 C16 C17 C18 C19 C20}
-cd /verif/harness
+HARNESS=${HARNESS:-/verif/harness}
+cd $HARNESS
 BIN=$(rustc +nightly --print sysroot)/lib/rustlib/x86_64-unknown-linux-gnu/bin
 OUT=/verif/logs/coverage
 rm -rf $OUT; mkdir -p $OUT/raw
@@ -21,8 +22,8 @@ for id in $IDS; do
   echo "ran $id"
 done
 $BIN/llvm-profdata merge -sparse $OUT/raw/*.profraw -o $OUT/all.profdata
-$BIN/llvm-cov report $EXE -instr-profile=$OUT/all.profdata --ignore-filename-regex='(\.cargo|/rustc/|/verif/)' > $OUT/per_file.txt 2>/dev/null
-$BIN/llvm-cov export $EXE -instr-profile=$OUT/all.profdata --ignore-filename-regex='(\.cargo|/rustc/|/verif/)' -format=lcov > $OUT/all.lcov 2>/dev/null
+$BIN/llvm-cov report $EXE -instr-profile=$OUT/all.profdata --ignore-filename-regex='(\.cargo|/rustc/|/verif/|/harness/src/)' > $OUT/per_file.txt 2>/dev/null
+$BIN/llvm-cov export $EXE -instr-profile=$OUT/all.profdata --ignore-filename-regex='(\.cargo|/rustc/|/verif/|/harness/src/)' -format=lcov > $OUT/all.lcov 2>/dev/null
 python3 - <<'E'
 import re,subprocess,collections
 out='/verif/logs/coverage'
